@@ -1,7 +1,9 @@
 package main
 
 import (
+	"crypto/tls"
 	"fmt"
+	"net"
 	"sync"
 	"sync/atomic"
 	"time"
@@ -17,7 +19,7 @@ func init() {
 		Rule: "a dedicated race-detector suite (GORACE halt_on_error=0, reports counted in the log files, de-duplicated by stack pair with line numbers stripped, attributed by the innermost non-runtime/non-stdlib frame of either access): " +
 			"S1 pipelined concurrent handlers writing on one connection (plain/TLS/StartTLS, back-pressure); S2 parallel StartTLS upgrades with traffic before and after; S3 Run/Ready/Stop racing connect storms; " +
 			"S4 connection teardown of every kind with handlers in flight; S5 the test directory served by 8 clients doing bind/search/add/modify/delete while the harness calls SetUsers/SetGroups/SetControls/SetTokenGroups/" +
-			"SetAllowAnonymousBind and the getters; S6 the same without Set*. Routes are registered before Run. Each scenario is repeated; a self-test race in harness code proves the detector is live. " +
+			"SetAllowAnonymousBind and the getters; S6 the same without Set*; S7 StartTLS upgrades followed by Stop with no traffic over the upgraded session. Routes are registered before Run. Each scenario is repeated; a self-test race in harness code proves the detector is live. " +
 			"distinct_nontrivial = distinct (scenario, repetition, GOMAXPROCS) executions that created concurrent gldap goroutines",
 		Assume: []string{"the race detector generalises each observed execution to every execution with the same synchronisation structure, and says nothing about code the workloads did not run",
 			"getter results are only len()-inspected by the harness: deep reads of shared entries after a getter are the caller's business"},
@@ -28,7 +30,7 @@ func init() {
 				procs = []string{"16", "4", "2"}
 			}
 			for _, p := range procs {
-				for _, s := range []string{"S1-writers", "S2-starttls", "S3-stop-storms", "S4-teardown", "S5-directory-set", "S6-directory"} {
+				for _, s := range []string{"S1-writers", "S2-starttls", "S3-stop-storms", "S4-teardown", "S5-directory-set", "S6-directory", "S7-starttls-then-stop"} {
 					ps = append(ps, Phase{Name: s + "-p" + p, Race: true, Run: c15Scenario, Env: map[string]string{"GOMAXPROCS": p}, Arg: s})
 				}
 			}
@@ -80,6 +82,10 @@ func c15Scenario(c *Ctx) {
 			c12Tails = nil
 		case hasPfx(arg, "S4"):
 			c08RunWith(c, 10)
+		case hasPfx(arg, "S7"):
+			for round := 0; round < 8; round++ {
+				c15StartTLSThenStop(c, pki, round)
+			}
 		case hasPfx(arg, "S5"):
 			c15Directory(c, r, true)
 		case hasPfx(arg, "S6"):
@@ -89,6 +95,44 @@ func c15Scenario(c *Ctx) {
 		c.Distinct("executions", fmt.Sprintf("%s/%d", arg, rep))
 	}
 	c.Sample(map[string]any{"scenario": arg, "repetitions": reps})
+}
+
+// c15StartTLSThenStop: connections are upgraded with StartTLS and then the server is stopped WITHOUT any traffic over
+// the upgraded session (socket I/O after the upgrade would order the upgrade before Stop and hide a race between them).
+func c15StartTLSThenStop(c *Ctx, pki *PKI, round int) {
+	srv, err := startSrv(SrvCfg{}, func(m *gldap.Mux) {
+		m.ExtendedOperation(func(w *gldap.ResponseWriter, r *gldap.Request) {
+			w.Write(r.NewExtendedResponse(gldap.WithResponseCode(0)))
+			r.StartTLS(pki.ServerOnly)
+		}, gldap.ExtendedOperationStartTLS)
+	})
+	if err != nil {
+		c.Inconclusive("server start: " + err.Error())
+		return
+	}
+	var conns []net.Conn
+	for i := 0; i < 1+round%3; i++ {
+		cn, err := net.Dial("tcp", srv.Addr)
+		if err != nil {
+			continue
+		}
+		conns = append(conns, cn)
+		cn.Write(sber.Message(1, sber.ExtendedRequest([]byte(sber.OIDStartTLS), nil, false), nil).Encode())
+		if _, err := wrapClient(cn).ReadMsg(patience); err != nil {
+			continue
+		}
+		tc := tls.Client(cn, pki.ClientPlain)
+		cn.SetDeadline(time.Now().Add(patience))
+		tc.Handshake()
+		cn.SetDeadline(time.Time{})
+	}
+	if round%2 == 1 {
+		time.Sleep(50 * time.Millisecond)
+	}
+	srv.StopWithin(patience)
+	for _, cn := range conns {
+		cn.Close()
+	}
 }
 
 func hasPfx(s, p string) bool { return len(s) >= len(p) && s[:len(p)] == p }
